@@ -114,11 +114,95 @@ pub fn run(ctx: &Ctx) -> Report {
         acc.maybe_sample(sample_key(seed, i ^ 0x5555), || json!({"op": 60, "args": args.hex()}));
     });
     rep.absorb(acc);
+    // histories: the backend must not carry state from one call to the next. (h1) in ONE allocator: checkpoint, big
+    // operand A, call, restore (A's NodePtr is handed out again), big operand B at the same index, call — the pair
+    // of outcomes with MALACHITE must equal the pair without; every ordered pair of 4 big values, as dividend and
+    // as divisor, 4 operators. (h2) whole programs with two big-operand calls in sequence under ENABLE_GC and
+    // inside softfork guards, F vs F|MALACHITE.
+    {
+        use clvmr::allocator::NodePtr;
+        let mut acc = Acc::default();
+        let bigs: Vec<Vec<u8>> = vec![crate::domains::big_atom(64), vec![0x78; 70], { let mut v = vec![0x78; 70]; v[69] = 0x79; v }, crate::domains::big_atom(100)];
+        let smalls: Vec<Vec<u8>> = vec![vec![7], vec![0x0f, 0x42, 0x43], { let mut v = crate::domains::big_atom(65); v[0] = 0x11; v }];
+        for op in [19u8, 20, 61, 60] {
+            for (ia, a_bytes) in bigs.iter().enumerate() {
+                for (ib, b_bytes) in bigs.iter().enumerate() {
+                    if ia == ib {
+                        continue;
+                    }
+                    for sm in &smalls {
+                        for big_first in [true, false] {
+                            let canon = format!("op={op} history: checkpoint; big operand #{ia} ({}B) {} {}; restore; big operand #{ib} ({}B) at the same index; call again", a_bytes.len(), if big_first { "as first argument with" } else { "as last argument after" }, hx(sm), b_bytes.len());
+                            guarded(&mut acc, &canon, |acc| {
+                                let run = |flags: ClvmFlags| -> Vec<OpOutcome> {
+                                    let mut a = crate::progspace::fresh_allocator(u32::MAX as usize);
+                                    let opn = a.new_atom(&[op]).unwrap();
+                                    let smn = a.new_atom(sm).unwrap();
+                                    let three = a.new_atom(&[3]).unwrap();
+                                    let cp = a.checkpoint();
+                                    let mut outs = vec![];
+                                    for bytes in [a_bytes, b_bytes] {
+                                        let bn = a.new_atom(bytes).unwrap();
+                                        let items: Vec<NodePtr> = match (op, big_first) {
+                                            (60, true) => vec![bn, three, smn],
+                                            (60, false) => vec![smn, three, bn],
+                                            (_, true) => vec![bn, smn],
+                                            (_, false) => vec![smn, bn],
+                                        };
+                                        let mut args = NodePtr::NIL;
+                                        for it in items.iter().rev() {
+                                            args = a.new_pair(*it, args).unwrap();
+                                        }
+                                        outs.push(call_op(&mut a, opn, args, flags, CEILING));
+                                        a.restore_checkpoint(&cp);
+                                    }
+                                    outs
+                                };
+                                let plain = run(ClvmFlags::empty());
+                                let mal = run(ClvmFlags::MALACHITE);
+                                acc.add("calls", 4);
+                                acc.inc("rewind_histories");
+                                if plain != mal {
+                                    acc.violation(canon.clone(), format!("num-bigint [{}] but malachite [{}]", plain.iter().map(|o| o.brief()).collect::<Vec<_>>().join(", "), mal.iter().map(|o| o.brief()).collect::<Vec<_>>().join(", ")));
+                                }
+                            });
+                        }
+                    }
+                }
+            }
+        }
+        // (h2)
+        use crate::progspace::{parse_prog, with_loaded};
+        let pad = crate::domains::big_atom(100);
+        let env = crate::tree::list(&[atom(&pad)]);
+        for opname in ["/", "divmod", "%"] {
+            for shape in [
+                "(c (OP (concat 2 (q . 7)) (q . 1000003)) (OP (concat 2 (q . 11)) (q . 1000003)))",
+                "(c (OP (q . 1000003) (concat 2 (q . 7))) (OP (q . 1000003) (concat 2 (q . 11))))",
+                "(c (OP (concat 2 (q . 7)) (q . 1000003)) (c (sha256 (concat 2 2 2 2 2 2 2 2 2 2 2)) (OP (concat 2 (q . 11)) (q . 1000003))))",
+                "(a (q . (c (OP (concat 2 (q . 7)) (q . 13)) (a (q . (OP (concat 2 (q . 11)) (q . 13))) 1))) 1)",
+            ] {
+                let p = parse_prog(&shape.replace("OP", opname));
+                for base in [ClvmFlags::empty(), ClvmFlags::ENABLE_GC, ClvmFlags::ENABLE_GC | ClvmFlags::NEW_COST_MODEL] {
+                    let canon = format!("prog={} env=(100-byte atom) flags={:#x}", p.hex(), base.bits());
+                    guarded(&mut acc, &canon, |acc| {
+                        let (o1, o2) = with_loaded(&p, &env, Enc::Inline, |l| (l.run_flags(base, 0), l.run_flags(base | ClvmFlags::MALACHITE, 0)));
+                        acc.add("calls", 2);
+                        acc.inc("program_histories");
+                        if o1.ok != o2.ok || o1.cost != o2.cost || o1.digest != o2.digest || o1.err != o2.err {
+                            acc.violation(canon.clone(), format!("num-bigint {} but malachite {}", o1.brief(), o2.brief()));
+                        }
+                    });
+                }
+            }
+        }
+        rep.absorb(acc);
+    }
     rep.evaluations = rep.acc.get("calls");
     rep.nontrivial = rep.acc.get("both_succeed");
     rep.states = rep.acc.get("arg_lists");
     rep.transitions = rep.acc.get("calls");
     rep.traces = rep.acc.get("arg_lists") * flagsets.len() as u64;
-    rep.rule = format!("div, divmod, mod over EVERY argument list of arity 0..={max} (and improper terminators) over a {}-value integer alphabet (boundary values in canonical / zero-padded / ff-padded form incl. eight zero bytes before 0x80, 257..2100-byte positive and negative operands, a pair); modpow over every (base, exponent <= 33 bytes, modulus) triple plus arities 0,1,2,4; x 6 flag sets, each called through ChiaDialect::op with and without MALACHITE under a high budget, the exact cost and cost-1; oracle: identical Ok(cost, result) or identical error string. Non-trivial = (argument list, flag set) pairs on which both backends succeed.", alpha.len());
+    rep.rule = format!("(plus call histories: two big operands at the same NodePtr index across a checkpoint restore, and programs with two big-operand calls under ENABLE_GC) div, divmod, mod over EVERY argument list of arity 0..={max} (and improper terminators) over a {}-value integer alphabet (boundary values in canonical / zero-padded / ff-padded form incl. eight zero bytes before 0x80, 257..2100-byte positive and negative operands, a pair); modpow over every (base, exponent <= 33 bytes, modulus) triple plus arities 0,1,2,4; x 6 flag sets, each called through ChiaDialect::op with and without MALACHITE under a high budget, the exact cost and cost-1; oracle: identical Ok(cost, result) or identical error string. Non-trivial = (argument list, flag set) pairs on which both backends succeed.", alpha.len());
     rep
 }
